@@ -219,7 +219,7 @@ fn escape_roundtrip(maxchars: usize) {
 }
 
 #[kani::proof]
-#[kani::unwind(18)]
+#[kani::unwind(10)]
 #[kani::stub(core::str::slice_error_fail, slice_error_fail_stub)]
 pub fn c09_escape_str_roundtrip_1() {
     escape_roundtrip(1);
